@@ -54,6 +54,12 @@ pub enum CoverageError {
         missing: Vec<CoveragePattern>,
         truncated: bool,
     },
+    /// The pattern of a `let`, `do`, or `fn` binder does not accept every value of its type.
+    RefutableBinder {
+        term: TermId,
+        missing: Vec<CoveragePattern>,
+        truncated: bool,
+    },
     NonExhaustiveCoMatch {
         computation: CompuId,
         missing: Vec<DtorName>,
@@ -65,12 +71,13 @@ pub enum CoverageError {
 }
 
 impl CoverageError {
-    pub fn computation(&self) -> CompuId {
+    pub fn term(&self) -> TermId {
         match self {
+            | Self::RefutableBinder { term, .. } => *term,
             | Self::NonExhaustiveMatch { computation, .. }
             | Self::NonExhaustiveCopatternMatch { computation, .. }
             | Self::NonExhaustiveCoMatch { computation, .. }
-            | Self::DuplicateCoMatchArms { computation, .. } => *computation,
+            | Self::DuplicateCoMatchArms { computation, .. } => (*computation).into(),
         }
     }
 
@@ -102,6 +109,9 @@ impl fmt::Display for CoverageError {
                 missing,
                 *truncated,
             ),
+            | Self::RefutableBinder { missing, truncated, .. } => {
+                Self::write_missing(f, "Refutable binder pattern", missing, *truncated)
+            }
             | Self::NonExhaustiveCoMatch { missing, .. } => write!(
                 f,
                 "Non-exhaustive comatch; missing destructor arm(s): {}",
@@ -127,11 +137,23 @@ impl<'a> CoverageChecker<'a> {
     }
 
     pub fn validate(&self) -> Vec<CoverageError> {
-        self.statics
+        let computations = self
+            .statics
             .compus
             .iter()
-            .flat_map(|(computation, term)| self.validate_computation(*computation, term))
-            .collect()
+            .flat_map(|(computation, term)| self.validate_computation(*computation, term));
+        let values =
+            self.statics.values.iter().flat_map(|(value, term)| self.validate_value(*value, term));
+        computations.chain(values).collect()
+    }
+
+    fn validate_value(&self, value: ValueId, term: &Value) -> Vec<CoverageError> {
+        match term {
+            | Value::VAbs(Abs(binder, _)) | Value::Let(Let { binder, .. }) => {
+                self.validate_binder(value.into(), *binder)
+            }
+            | _ => Vec::new(),
+        }
     }
 
     fn validate_computation(&self, computation: CompuId, term: &Computation) -> Vec<CoverageError> {
@@ -140,6 +162,12 @@ impl<'a> CoverageChecker<'a> {
                 self.validate_match(computation, *scrut, arms)
             }
             | Computation::CoMatch(CoMatch { arms }) => self.validate_comatch(computation, arms),
+            // A binder has no other arm to fall through to: its pattern must be irrefutable.
+            | Computation::VAbs(Abs(binder, _))
+            | Computation::Do(Bind { binder, .. })
+            | Computation::Let(Let { binder, .. }) => {
+                self.validate_binder(computation.into(), *binder)
+            }
             | _ => Vec::new(),
         };
         let binder_errors = self
@@ -171,10 +199,34 @@ impl<'a> CoverageChecker<'a> {
         )
     }
 
+    fn validate_binder(&self, term: TermId, binder: VPatId) -> Vec<CoverageError> {
+        let (missing, truncated) = self.missing_patterns(std::iter::once(binder), None);
+        (!missing.is_empty())
+            .then_some(CoverageError::RefutableBinder { term, missing, truncated })
+            .into_iter()
+            .collect()
+    }
+
     fn validate_pattern_matrix(
         &self, computation: CompuId, binders: impl IntoIterator<Item = VPatId>,
         expected: Option<HeadSpace>, copattern: bool,
     ) -> Vec<CoverageError> {
+        let (missing, truncated) = self.missing_patterns(binders, expected);
+        (!missing.is_empty())
+            .then_some({
+                if copattern {
+                    CoverageError::NonExhaustiveCopatternMatch { computation, missing, truncated }
+                } else {
+                    CoverageError::NonExhaustiveMatch { computation, missing, truncated }
+                }
+            })
+            .into_iter()
+            .collect()
+    }
+
+    fn missing_patterns(
+        &self, binders: impl IntoIterator<Item = VPatId>, expected: Option<HeadSpace>,
+    ) -> (Vec<CoveragePattern>, bool) {
         let matrix = binders
             .into_iter()
             .map(|binder| vec![MatrixPattern::from_typed(binder, self.statics)])
@@ -191,16 +243,7 @@ impl<'a> CoverageChecker<'a> {
                 pattern
             })
             .collect::<Vec<_>>();
-        (!missing.is_empty())
-            .then_some({
-                if copattern {
-                    CoverageError::NonExhaustiveCopatternMatch { computation, missing, truncated }
-                } else {
-                    CoverageError::NonExhaustiveMatch { computation, missing, truncated }
-                }
-            })
-            .into_iter()
-            .collect()
+        (missing, truncated)
     }
 
     fn validate_comatch(
